@@ -665,10 +665,10 @@ def check_diagramize(ctx):
            sig="offset-recovery")
     # splice and whiskering
     loc = shape.single_assignments(lp.body)
-    tup = next((s for s in lp.body if isinstance(s, ast.Assign) and isinstance(s.targets[0], ast.Tuple) and [ast.unparse(t) for t in s.targets[0].elts] == ["left", "right"]), None)
-    ctx.need(tup is not None and isinstance(tup.value, ast.Tuple), "nx2diagram does not compute left, right")
-    shape.match(ctx, "R20.8", DR + ".nx2diagram:left", tup.value.elts[0], "diagram.cod[:offset]", {}, mod=DR, node=tup, sig="nx-left")
-    shape.match(ctx, "R20.8", DR + ".nx2diagram:right", tup.value.elts[1], "diagram.cod[offset + len(box.dom):]", {}, mod=DR, node=tup, sig="nx-right")
+    tup = shape.values_of(lp.body, ["left", "right"])
+    ctx.need(tup is not None, "nx2diagram does not compute left, right")
+    shape.match(ctx, "R20.8", DR + ".nx2diagram:left", tup.elts[0], "diagram.cod[:offset]", {}, mod=DR, node=tup.elts[0], sig="nx-left")
+    shape.match(ctx, "R20.8", DR + ".nx2diagram:right", tup.elts[1], "diagram.cod[offset + len(box.dom):]", {}, mod=DR, node=tup.elts[1], sig="nx-right")
     sc = next((s for s in lp.body if isinstance(s, ast.Assign) and ast.unparse(s.targets[0]) == "scan"), None)
     ctx.need(sc is not None, "nx2diagram does not update the row")
     shape.match(ctx, "R20.8", DR + ".nx2diagram:row", sc.value, "scan[:offset] + outputs + scan[offset + len(box.dom):]", {}, mod=DR, node=sc, sig="nx-row", required="the consumed input wires are replaced by the output nodes")
